@@ -113,3 +113,23 @@ Fixpoint infer (fuel : nat) (G : ctx) (t : term) : option term :=
           if is_true (convb f G Tc TBool) && is_true (convb f G Tb Ta) then Some Ta else None
       | _, _, _ => None end
   end end.
+
+(* full normal form (fuel-bounded), parameter annotations of functions erased: the reference for
+   "coincides with equality of normal forms (ignoring parameter annotations of functions)" *)
+Fixpoint nf (fuel : nat) (G : ctx) (t : term) : option term :=
+  match fuel with O => None | S f =>
+  match whnf f G t with
+  | None => None
+  | Some w =>
+    match w with
+    | TLam im d b => match nf f (bind G d) b with Some b' => Some (TLam im TType b') | None => None end
+    | TPi im d b =>
+        match nf f G d, nf f (bind G d) b with Some d', Some b' => Some (TPi im d' b') | _, _ => None end
+    | TApp a b => match nf f G a, nf f G b with Some a', Some b' => Some (TApp a' b') | _, _ => None end
+    | TNeg a => match nf f G a with Some a' => Some (TNeg a') | None => None end
+    | TBin o a b => match nf f G a, nf f G b with Some a', Some b' => Some (TBin o a' b') | _, _ => None end
+    | TIf c a b =>
+        match nf f G c, nf f G a, nf f G b with Some c', Some a', Some b' => Some (TIf c' a' b') | _, _, _ => None end
+    | _ => Some w
+    end
+  end end.
